@@ -287,11 +287,11 @@ func runCGGMP21(rc *harness.RunCtx, useDKG bool) harness.Outcome {
 	probes["family_"+spec.kind]++
 	o := out(nil)
 	o.Class = class + " " + pr.netClass()
-	// Not the signature: the dealer generates the Paillier / ring-Pedersen keys in
-	// concurrent goroutines from the process-global source (finding C07-3), so the
-	// moduli, and through rejection sampling against them the later draws of every
-	// party, differ between executions of one seed. What is a function of the seed:
-	// the ECDSA key, the quorum, the message and the schedule.
+	// Not the signature: the library caches the Joye-Paillier prime-search parameters per
+	// process (computed from the first caller's reader) and races workers in the safe-prime
+	// search, so the moduli, and through rejection sampling against them the later draws of
+	// every party, depend on what ran earlier in this worker process. What is a function of
+	// the seed: the ECDSA key, the quorum, the message and the schedule.
 	o.Digest = fmt.Sprintf("%x|%v|%x", pk.Bytes(), quorum, msg)
 	return o
 }
